@@ -329,6 +329,9 @@ func init() {
 		n2 := n
 		if n2 > 16 {
 			n2 = 16
+			if c18Par(shape) {
+				n2 = 48
+			}
 		}
 		s := &c18Sess{args: []c18Arg{{"base", &base}, {"baseG2", &base2}, {"scalars", &scalars}}}
 		s.call = func() string {
@@ -917,6 +920,9 @@ func init() {
 		p1, p2 := polynomial.Polynomial(rfrs(r, n1)), polynomial.Polynomial(rfrs(r, n2))
 		c := rfr(r)
 		nv := c18Pick(shape, 1, 2, 6, func() int { return 1 + r.intn(5) })
+		if c18Par(shape) { // FoldParallel: blocks of the table folded by the workers of a shared utils.WorkerPool
+			nv = 11 + shape&1
+		}
 		ml := polynomial.MultiLin(rfrs(r, 1<<nv))
 		q, hh := rfrs(r, nv), rfrs(r, nv)
 		vals := rfrs(r, c18Pick(shape, 1, 2, 9, func() int { return 1 + r.intn(9) }))
@@ -932,6 +938,10 @@ func init() {
 			out := deepHash(&sum) + deepHash(&dif) + deepHash(&sc) + deepHash(&ev) + deepHash(&cl) + boolStr(p1.Equal(p2)) + p1.Text(10)
 			mc := ml.Clone()
 			mc.Fold(c)
+			mp := ml.Clone()
+			task := mp.FoldParallel(c)
+			c18WorkerPool().Submit(len(mp), task, 1+len(mp)/37).Wait()
+			out += boolStr(deepHash(&mp) == deepHash(&mc))
 			var eq polynomial.MultiLin = make([]fr.Element, 1<<nv)
 			eq[0].SetOne()
 			eq.Eq(q)
